@@ -331,7 +331,11 @@ theorem IsCode.le {c : Int} (h : IsCode c) : c ≤ sSending := by
   rcases h with h | h | h | h <;> omega
 
 /-- the status entry of the message while no outcome has been reported; `k` segments stored so far -/
-structure StatOK (M : SegMsg) (k : Nat) (s : CState) (st : SegStatus) : Prop where
+structure StatOK (G : Prop) (M : SegMsg) (k : Nat) (s : CState) (st : SegStatus) : Prop where
+  /-- the entry carries the message's identity: `orig` always, the kept response as long as every response
+      carrying one of the message's numbers had a proper type (`G`) -/
+  orig : st.orig.logId = M.L
+  last : G → ∀ y, st.lastResponse = some y → y.logId = M.L
   keys : st.status.map (·.1) = List.range' 1 M.n
   codes : ∀ p ∈ st.status, IsCode p.2
   sending : ∀ i, 1 ≤ i → i ≤ M.n →
@@ -342,10 +346,10 @@ def SegM (M : SegMsg) (s : CState) : Prop :=
   ∀ i p, 1 ≤ i → i ≤ M.n → aget s.segStore (M.x i).seq = some p → p = (M.r, i)
 
 /-- open: `k` segments stored, no outcome reported yet -/
-structure A (M : SegMsg) (k : Nat) (s : CState) : Prop where
+structure A (G : Prop) (M : SegMsg) (k : Nat) (s : CState) : Prop where
   quiet : QuietM M s
   segM : SegM M s
-  ent : ∃ st, aget s.segStatus M.r = some st ∧ StatOK M k s st
+  ent : ∃ st, aget s.segStatus M.r = some st ∧ StatOK G M k s st
   live : ∀ i, 1 ≤ i → i ≤ k → ∀ v, aget s.store (M.x i).seq = some v →
     v.2 = M.x i ∧ aget s.segStore (M.x i).seq = some (M.r, i)
   unput : ∀ i, k < i → i ≤ M.n → aget s.store (M.x i).seq = none
@@ -361,7 +365,9 @@ structure D (M : SegMsg) (s : CState) : Prop where
   segM : SegM M s
   gone : ∀ k, M.IsSeq k → aget s.store k = none
 
-theorem StatOK.ne {M : SegMsg} (w : M.WF) {k : Nat} {s : CState} {st : SegStatus} (h : StatOK M k s st) :
+variable {G : Prop}
+
+theorem StatOK.ne {M : SegMsg} (w : M.WF) {k : Nat} {s : CState} {st : SegStatus} (h : StatOK G M k s st) :
     st.status ≠ [] := by
   intro e
   have := h.keys
@@ -370,15 +376,15 @@ theorem StatOK.ne {M : SegMsg} (w : M.WF) {k : Nat} {s : CState} {st : SegStatus
   simp at this
   omega
 
-theorem StatOK.nodup {M : SegMsg} {k : Nat} {s : CState} {st : SegStatus} (h : StatOK M k s st) :
+theorem StatOK.nodup {M : SegMsg} {k : Nat} {s : CState} {st : SegStatus} (h : StatOK G M k s st) :
     (st.status.map (·.1)).Nodup := by rw [h.keys]; exact List.nodup_range' 1
 
-theorem StatOK.key {M : SegMsg} {k : Nat} {s : CState} {st : SegStatus} (h : StatOK M k s st) (i : Nat) :
+theorem StatOK.key {M : SegMsg} {k : Nat} {s : CState} {st : SegStatus} (h : StatOK G M k s st) (i : Nat) :
     i ∈ st.status.map (·.1) ↔ 1 ≤ i ∧ i ≤ M.n := by
   rw [h.keys, List.mem_range'_1]; omega
 
 /-- still sending exactly while something is pending -/
-theorem StatOK.max_sending {M : SegMsg} (w : M.WF) {k : Nat} {s : CState} {st : SegStatus} (h : StatOK M k s st) :
+theorem StatOK.max_sending {M : SegMsg} (w : M.WF) {k : Nat} {s : CState} {st : SegStatus} (h : StatOK G M k s st) :
     maxCode st.status = sSending ↔ Pend M k s := by
   rw [maxCode_sending_iff st.status (h.ne w) (fun p hp => (h.codes p hp).le)]
   constructor
@@ -407,23 +413,49 @@ theorem cumulated_eq (s : CState) (ref : Nat) (st : SegStatus) (h : aget s.segSt
     | cons _ _ => rfl
   simp only [this, Bool.false_eq_true, if_false]
 
-theorem A.toD_of_not_pend {M : SegMsg} {k : Nat} {s : CState} (a : A M k s) (hp : ¬ Pend M k s) :
+theorem A.toD_of_not_pend {M : SegMsg} {k : Nat} {s : CState} (a : A G M k s) (hp : ¬ Pend M k s) :
     ∀ k', M.IsSeq k' → aget s.store k' = none := by
   rintro k' ⟨i, h1, h2, rfl⟩
   cases hq : aget s.store (M.x i).seq with
   | none => rfl
   | some v => exact absurd ⟨i, h1, h2, Or.inr (by rw [hq]; simp)⟩ hp
 
+/-- a sub-step keeps what is registered for those segments of the message that are not in the request store -/
+def KeepSeg (M : SegMsg) (s s' : CState) : Prop :=
+  ∀ i, 1 ≤ i → i ≤ M.n → aget s.store (M.x i).seq = none →
+    aget s'.store (M.x i).seq = none ∧ aget s'.segStore (M.x i).seq = aget s.segStore (M.x i).seq
+
+theorem KeepSeg.refl (M : SegMsg) (s : CState) : KeepSeg M s s := fun _ _ _ h => ⟨h, rfl⟩
+
+theorem KeepSeg.trans {M : SegMsg} {a b c : CState} (h1 : KeepSeg M a b) (h2 : KeepSeg M b c) : KeepSeg M a c := by
+  intro i hi1 hi2 h
+  obtain ⟨x, y⟩ := h1 i hi1 hi2 h
+  obtain ⟨x', y'⟩ := h2 i hi1 hi2 x
+  exact ⟨x', y'.trans y⟩
+
+theorem SameM.keep {M : SegMsg} {s s' : CState} (h : SameM M s s') : KeepSeg M s s' := by
+  intro i hi1 hi2 hn
+  have hi : M.IsSeq (M.x i).seq := ⟨i, hi1, hi2, rfl⟩
+  exact ⟨by rw [h.store _ hi]; exact hn, h.seg _ hi⟩
+
+/-- the number of outcomes reported when the message is closed: at most one, and exactly one when every response
+    carrying one of its numbers had a proper type -/
+def Cl (G : Prop) (n : Nat) : Prop := n ≤ 1 ∧ (G → n = 1)
+
+theorem Cl.one (G : Prop) : Cl G 1 := ⟨Nat.le_refl 1, fun _ => rfl⟩
+
 /-! ### expiry of one of the message's own segments -/
 
-theorem expireM (M : SegMsg) (w : M.WF) (k : Nat) (s : CState) (j t : Nat) (a : A M k s)
+theorem expireM (M : SegMsg) (w : M.WF) (k : Nat) (s : CState) (j t : Nat) (a : A G M k s)
     (h1 : 1 ≤ j) (h2 : j ≤ k) (hst : aget s.store (M.x j).seq = some (t, M.x j)) :
-    ((A M k (expired { s with store := adel s.store (M.x j).seq } (M.x j)).1 ∧
-        (expired { s with store := adel s.store (M.x j).seq } (M.x j)).2 = []) ∨
+    ((A G M k (expired { s with store := adel s.store (M.x j).seq } (M.x j)).1 ∧
+        (expired { s with store := adel s.store (M.x j).seq } (M.x j)).2 = [] ∧
+        Pend M k (expired { s with store := adel s.store (M.x j).seq } (M.x j)).1) ∨
       (D M (expired { s with store := adel s.store (M.x j).seq } (M.x j)).1 ∧
-        countL M.L (expired { s with store := adel s.store (M.x j).seq } (M.x j)).2 ≤ 1 ∧
+        countL M.L (expired { s with store := adel s.store (M.x j).seq } (M.x j)).2 = 1 ∧
         aget (expired { s with store := adel s.store (M.x j).seq } (M.x j)).1.segStatus M.r = none ∧ M.n ≤ k)) ∧
-    (expired { s with store := adel s.store (M.x j).seq } (M.x j)).1.ttlResp = s.ttlResp := by
+    (expired { s with store := adel s.store (M.x j).seq } (M.x j)).1.ttlResp = s.ttlResp ∧
+    KeepSeg M s (expired { s with store := adel s.store (M.x j).seq } (M.x j)).1 := by
   obtain ⟨st, hst0, hok⟩ := a.ent
   have hjn : j ≤ M.n := Nat.le_trans h2 a.kle
   have hseg : aget s.segStore (M.x j).seq = some (M.r, j) := (a.live j h1 h2 _ hst).2
@@ -465,8 +497,8 @@ theorem expireM (M : SegMsg) (w : M.WF) (k : Nat) (s : CState) (j t : Nat) (a : 
   have hsegM2 : SegM M s2 := by
     intro i p' hi1 hi2 hp
     exact a.segM i p' hi1 hi2 (aget_adel_some _ _ _ _ hp)
-  have hok1 : StatOK M k s2 st1 := by
-    refine ⟨?_, ?_, ?_⟩
+  have hok1 : StatOK G M k s2 st1 := by
+    refine ⟨hok.orig, hok.last, ?_, ?_, ?_⟩
     · show (aset st.status j sExpired).map (·.1) = _
       rw [aset_keys _ _ _ hjkey]; exact hok.keys
     · intro p' hp
@@ -487,6 +519,15 @@ theorem expireM (M : SegMsg) (w : M.WF) (k : Nat) (s : CState) (j t : Nat) (a : 
         show _ ↔ (k < i ∨ aget (adel s.store (M.x j).seq) (M.x i).seq ≠ none)
         rw [hstore_other i e]
         exact hok.sending i hi1 hi2
+  have hkeep2 : ∀ i, 1 ≤ i → i ≤ M.n → aget s.store (M.x i).seq = none →
+      aget (adel s.store (M.x j).seq) (M.x i).seq = none ∧
+        aget (adel s.segStore (M.x j).seq) (M.x i).seq = aget s.segStore (M.x i).seq := by
+    intro i _ _ hn
+    have hij : i ≠ j := by
+      intro e; subst e
+      rw [hn] at hst; cases hst
+    exact ⟨by rw [hstore_other i hij]; exact hn, aget_adel_other _ _ _ (fun e => hij (w.inj i j e))⟩
+  have horig : st1.orig.logId = M.L := hok.orig
   have hcum := cumulated_eq s2 M.r st1 (aget_aset_same _ _ _) hne1
   have hmax := hok1.max_sending w
   by_cases hp : Pend M k s2
@@ -497,7 +538,8 @@ theorem expireM (M : SegMsg) (w : M.WF) (k : Nat) (s : CState) (j t : Nat) (a : 
     rw [hc]
     have h1' : ¬ (sSending = sExpired ∨ sSending = sFailed) := by decide
     rw [if_neg h1']
-    refine ⟨Or.inl ⟨⟨hquiet2, hsegM2, ⟨st1, aget_aset_same _ _ _, hok1⟩, ?_, ?_, a.kle⟩, rfl⟩, rfl⟩
+    refine ⟨Or.inl ⟨⟨hquiet2, hsegM2, ⟨st1, aget_aset_same _ _ _, hok1⟩, ?_, ?_, a.kle⟩, rfl, hp⟩, rfl,
+      fun i a b c => hkeep2 i a b c⟩
     · intro i hi1 hi2 v hv
       have hij : i ≠ j := by
         intro e; subst e
@@ -536,11 +578,11 @@ theorem expireM (M : SegMsg) (w : M.WF) (k : Nat) (s : CState) (j t : Nat) (a : 
     have hnk : M.n ≤ k := by
       by_contra hc
       exact hp ⟨M.n, w.npos, Nat.le_refl _, Or.inl (by omega)⟩
-    refine ⟨Or.inr ⟨⟨?_, hsegM2, ?_⟩, ?_, aget_adel_same _ _, hnk⟩, rfl⟩
+    refine ⟨Or.inr ⟨⟨?_, hsegM2, ?_⟩, ?_, aget_adel_same _ _, hnk⟩, rfl, fun i a b c => hkeep2 i a b c⟩
     · refine ⟨hquiet2.store, hquiet2.seg, ?_⟩
       intro r' st' hr' hst'
       exact hquiet2.stat r' st' hr' (aget_adel_some _ _ _ _ hst')
-    · have a2 : A M k s2 := ⟨hquiet2, hsegM2, ⟨st1, aget_aset_same _ _ _, hok1⟩,
+    · have a2 : A G M k s2 := ⟨hquiet2, hsegM2, ⟨st1, aget_aset_same _ _ _, hok1⟩,
         (by
           intro i hi1 hi2 v hv
           have hij : i ≠ j := by
@@ -560,8 +602,7 @@ theorem expireM (M : SegMsg) (w : M.WF) (k : Nat) (s : CState) (j t : Nat) (a : 
           rw [hstore_other i (by omega)]
           exact a.unput i hi1 hi2), a.kle⟩
       exact a2.toD_of_not_pend hp
-    · simp only [countL, List.countP_cons, List.countP_nil]
-      split <;> omega
+    · simp [countL, isL, horig]
 
 /-! ### transfer along frames -/
 
@@ -581,10 +622,10 @@ theorem D.of_same {M : SegMsg} {s s' : CState} (d : D M s) (hq : QuietM M s') (h
   · intro k hk
     rw [hs.store k hk]; exact d.gone k hk
 
-theorem A.of_same {M : SegMsg} {k : Nat} {s s' : CState} (a : A M k s) (hq : QuietM M s') (hs : SameM M s s') :
-    A M k s' := by
+theorem A.of_same {M : SegMsg} {k : Nat} {s s' : CState} (a : A G M k s) (hq : QuietM M s') (hs : SameM M s s') :
+    A G M k s' := by
   obtain ⟨st, hst, hok⟩ := a.ent
-  refine ⟨hq, ?_, ⟨st, by rw [hs.stat]; exact hst, ⟨hok.keys, hok.codes, ?_⟩⟩, ?_, ?_, a.kle⟩
+  refine ⟨hq, ?_, ⟨st, by rw [hs.stat]; exact hst, ⟨hok.orig, hok.last, hok.keys, hok.codes, ?_⟩⟩, ?_, ?_, a.kle⟩
   · intro i p h1 h2 hp
     rw [hs.seg _ ⟨i, h1, h2, rfl⟩] at hp
     exact a.segM i p h1 h2 hp
@@ -642,12 +683,13 @@ theorem sweepD (M : SegMsg) (now : Nat) : ∀ (ks : List Nat) (s : CState), D M 
         rw [countL_append, c3, nonL M _ o2]
       · rw [if_neg h2]; exact sweepD M now ks s d
 
-theorem sweepA (M : SegMsg) (w : M.WF) (k : Nat) (now : Nat) : ∀ (ks : List Nat) (s : CState), A M k s →
-    (sweepStore now ks s).1.ttlResp = s.ttlResp ∧
-    ((A M k (sweepStore now ks s).1 ∧ countL M.L (sweepStore now ks s).2 = 0) ∨
-     (D M (sweepStore now ks s).1 ∧ countL M.L (sweepStore now ks s).2 ≤ 1 ∧
+theorem sweepA (M : SegMsg) (w : M.WF) (k : Nat) (now : Nat) : ∀ (ks : List Nat) (s : CState), A G M k s →
+    (sweepStore now ks s).1.ttlResp = s.ttlResp ∧ KeepSeg M s (sweepStore now ks s).1 ∧
+    ((A G M k (sweepStore now ks s).1 ∧ countL M.L (sweepStore now ks s).2 = 0 ∧
+       (Pend M k s → Pend M k (sweepStore now ks s).1)) ∨
+     (D M (sweepStore now ks s).1 ∧ countL M.L (sweepStore now ks s).2 = 1 ∧
        aget (sweepStore now ks s).1.segStatus M.r = none ∧ M.n ≤ k))
-  | [], s, a => ⟨rfl, Or.inl ⟨a, by simp [sweepStore, countL]⟩⟩
+  | [], s, a => ⟨rfl, KeepSeg.refl M s, Or.inl ⟨a, by simp [sweepStore, countL], fun h => h⟩⟩
   | k0 :: ks, s, a => by
     rw [sweepStore_cons]
     cases h1 : aget s.store k0 with
@@ -665,23 +707,27 @@ theorem sweepA (M : SegMsg) (w : M.WF) (k : Nat) (now : Nat) : ∀ (ks : List Na
             rw [this] at h1; cases h1
           have hm0 : m0 = M.x j := (a.live j hj1 hjk _ h1).1
           subst hm0
-          obtain ⟨hcase, httl⟩ := expireM M w k s j at0 a hj1 hjk h1
-          rcases hcase with ⟨a2, ho⟩ | ⟨d2, hc, hgone, hnk⟩
-          · obtain ⟨t3, r3⟩ := sweepA M w k now ks _ a2
-            refine ⟨t3.trans httl, ?_⟩
+          obtain ⟨hcase, httl, hkeep⟩ := expireM M w k s j at0 a hj1 hjk h1
+          rcases hcase with ⟨a2, ho, hp2⟩ | ⟨d2, hc, hgone, hnk⟩
+          · obtain ⟨t3, k3, r3⟩ := sweepA M w k now ks _ a2
+            refine ⟨t3.trans httl, hkeep.trans k3, ?_⟩
             rw [ho, List.nil_append]
-            exact r3
+            rcases r3 with ⟨x, y, z⟩ | r3
+            · exact Or.inl ⟨x, y, fun _ => z hp2⟩
+            · exact Or.inr r3
           · obtain ⟨d3, s3, c3⟩ := sweepD M now ks _ d2
-            refine ⟨s3.ttl.trans httl, Or.inr ⟨d3, ?_, by rw [s3.stat]; exact hgone, hnk⟩⟩
-            rw [countL_append, c3]; omega
+            refine ⟨s3.ttl.trans httl, hkeep.trans s3.keep, Or.inr ⟨d3, ?_, by rw [s3.stat]; exact hgone, hnk⟩⟩
+            rw [countL_append, c3, hc]
         · obtain ⟨hl, hsq⟩ := a.quiet.store k0 (at0, m0) hk h1
           obtain ⟨q1, s1⟩ := drop_other M s k0 a.quiet hk
           obtain ⟨q2, s2, o2⟩ := expired_frame M _ m0 q1 hl (by rw [hsq]; exact hk)
-          have a2 : A M k (expired { s with store := adel s.store k0 } m0).1 := a.of_same q2 (s1.trans s2)
-          obtain ⟨t3, r3⟩ := sweepA M w k now ks _ a2
-          refine ⟨t3.trans (s1.trans s2).ttl, ?_⟩
+          have a2 : A G M k (expired { s with store := adel s.store k0 } m0).1 := a.of_same q2 (s1.trans s2)
+          obtain ⟨t3, k3, r3⟩ := sweepA M w k now ks _ a2
+          refine ⟨t3.trans (s1.trans s2).ttl, (s1.trans s2).keep.trans k3, ?_⟩
           rw [countL_append, nonL M _ o2, Nat.zero_add]
-          exact r3
+          rcases r3 with ⟨x, y, z⟩ | r3
+          · exact Or.inl ⟨x, y, fun hp => z (Pend.of_same (s1.trans s2) hp)⟩
+          · exact Or.inr r3
       · rw [if_neg h2]; exact sweepA M w k now ks s a
 
 theorem removeExpiredD (M : SegMsg) (s : CState) (now : Nat) (d : D M s) :
@@ -692,17 +738,18 @@ theorem removeExpiredD (M : SegMsg) (s : CState) (now : Nat) (d : D M s) :
   exact ⟨d1.of_same (d1.quiet.congr rfl rfl rfl) (SameM.of_eq rfl rfl rfl rfl),
     s1.trans (SameM.of_eq rfl rfl rfl rfl), c1⟩
 
-theorem removeExpiredA (M : SegMsg) (w : M.WF) (k : Nat) (s : CState) (now : Nat) (a : A M k s) :
-    (removeExpired s now).1.ttlResp = s.ttlResp ∧
-    ((A M k (removeExpired s now).1 ∧ countL M.L (removeExpired s now).2 = 0) ∨
-     (D M (removeExpired s now).1 ∧ countL M.L (removeExpired s now).2 ≤ 1 ∧
+theorem removeExpiredA (M : SegMsg) (w : M.WF) (k : Nat) (s : CState) (now : Nat) (a : A G M k s) :
+    (removeExpired s now).1.ttlResp = s.ttlResp ∧ KeepSeg M s (removeExpired s now).1 ∧
+    ((A G M k (removeExpired s now).1 ∧ countL M.L (removeExpired s now).2 = 0 ∧
+       (Pend M k s → Pend M k (removeExpired s now).1)) ∨
+     (D M (removeExpired s now).1 ∧ countL M.L (removeExpired s now).2 = 1 ∧
        aget (removeExpired s now).1.segStatus M.r = none ∧ M.n ≤ k)) := by
   unfold removeExpired
   dsimp only
-  obtain ⟨t1, r1⟩ := sweepA M w k now (s.store.map (·.1)) s a
-  refine ⟨t1, ?_⟩
-  rcases r1 with ⟨a1, c1⟩ | ⟨d1, c1, g1, n1⟩
-  · exact Or.inl ⟨a1.of_same (a1.quiet.congr rfl rfl rfl) (SameM.of_eq rfl rfl rfl rfl), c1⟩
+  obtain ⟨t1, k1, r1⟩ := sweepA M w k now (s.store.map (·.1)) s a
+  refine ⟨t1, k1, ?_⟩
+  rcases r1 with ⟨a1, c1, p1⟩ | ⟨d1, c1, g1, n1⟩
+  · exact Or.inl ⟨a1.of_same (a1.quiet.congr rfl rfl rfl) (SameM.of_eq rfl rfl rfl rfl), c1, p1⟩
   · exact Or.inr ⟨d1.of_same (d1.quiet.congr rfl rfl rfl) (SameM.of_eq rfl rfl rfl rfl), c1, g1, n1⟩
 
 /-! ### storing a request -/
@@ -778,17 +825,17 @@ theorem putOtherD (M : SegMsg) (s : CState) (now : Nat) (m' : Msg) (d : D M s)
   obtain ⟨q2, s2⟩ := putTail_frame M _ now m' d1.quiet hk hl hr
   exact ⟨d1.of_same q2 s2, s1.trans s2, c1⟩
 
-theorem putOtherA (M : SegMsg) (w : M.WF) (k : Nat) (s : CState) (now : Nat) (m' : Msg) (a : A M k s)
+theorem putOtherA (M : SegMsg) (w : M.WF) (k : Nat) (s : CState) (now : Nat) (m' : Msg) (a : A G M k s)
     (hk : ¬ M.IsSeq m'.seq) (hl : m'.logId ≠ M.L) (hr : m'.sarTotal > 0 → m'.sarRef ≠ M.r) :
     (put s now m').1.ttlResp = s.ttlResp ∧
-    ((A M k (put s now m').1 ∧ countL M.L (put s now m').2 = 0) ∨
-     (D M (put s now m').1 ∧ countL M.L (put s now m').2 ≤ 1 ∧ M.n ≤ k)) := by
+    ((A G M k (put s now m').1 ∧ countL M.L (put s now m').2 = 0 ∧ (Pend M k s → Pend M k (put s now m').1)) ∨
+     (D M (put s now m').1 ∧ countL M.L (put s now m').2 = 1 ∧ M.n ≤ k)) := by
   rw [put_eq]
-  obtain ⟨t1, r1⟩ := removeExpiredA M w k s now a
+  obtain ⟨t1, _, r1⟩ := removeExpiredA M w k s now a
   refine ⟨by rw [putTail_ttl]; exact t1, ?_⟩
-  rcases r1 with ⟨a1, c1⟩ | ⟨d1, c1, _, hnk⟩
+  rcases r1 with ⟨a1, c1, p1⟩ | ⟨d1, c1, _, hnk⟩
   · obtain ⟨q2, s2⟩ := putTail_frame M _ now m' a1.quiet hk hl hr
-    exact Or.inl ⟨a1.of_same q2 s2, c1⟩
+    exact Or.inl ⟨a1.of_same q2 s2, c1, fun hp => Pend.of_same s2 (p1 hp)⟩
   · obtain ⟨q2, s2⟩ := putTail_frame M _ now m' d1.quiet hk hl hr
     exact Or.inr ⟨d1.of_same q2 s2, c1, hnk⟩
 
@@ -821,12 +868,12 @@ theorem aget_range_sending (n i : Nat) (h1 : 1 ≤ i) (h2 : i ≤ n) :
   exact List.nodup_range' 1
 
 /-- the next segment of the message is stored -/
-theorem putNext (M : SegMsg) (w : M.WF) (k : Nat) (s : CState) (now : Nat) (a : A M k s) (hk1 : 1 ≤ k) (hkn : k < M.n) :
-    A M (k + 1) (put s now (M.x (k + 1))).1 ∧ countL M.L (put s now (M.x (k + 1))).2 = 0 ∧
+theorem putNext (M : SegMsg) (w : M.WF) (k : Nat) (s : CState) (now : Nat) (a : A G M k s) (hk1 : 1 ≤ k) (hkn : k < M.n) :
+    A G M (k + 1) (put s now (M.x (k + 1))).1 ∧ countL M.L (put s now (M.x (k + 1))).2 = 0 ∧
       (put s now (M.x (k + 1))).1.ttlResp = s.ttlResp := by
   rw [put_eq]
-  obtain ⟨t1, r1⟩ := removeExpiredA M w k s now a
-  rcases r1 with ⟨a1, c1⟩ | ⟨_, _, _, hn⟩
+  obtain ⟨t1, _, r1⟩ := removeExpiredA M w k s now a
+  rcases r1 with ⟨a1, c1, _⟩ | ⟨_, _, _, hn⟩
   swap
   · omega
   refine ⟨?_, c1, by rw [putTail_ttl]; exact t1⟩
@@ -836,7 +883,7 @@ theorem putNext (M : SegMsg) (w : M.WF) (k : Nat) (s : CState) (now : Nat) (a : 
   dsimp only
   have hjkey : (k + 1) ∈ st.status.map (·.1) := (hok.key (k + 1)).mpr ⟨by omega, by omega⟩
   have hq : ∀ i, i ≠ k + 1 → (M.x i).seq ≠ (M.x (k + 1)).seq := fun i hi e => hi (w.inj _ _ e)
-  refine ⟨⟨?_, ?_, ?_⟩, ?_, ⟨_, aget_aset_same _ _ _, ⟨?_, ?_, ?_⟩⟩, ?_, ?_, by omega⟩
+  refine ⟨⟨?_, ?_, ?_⟩, ?_, ⟨_, aget_aset_same _ _ _, ⟨hok.orig, hok.last, ?_, ?_, ?_⟩⟩, ?_, ?_, by omega⟩
   · intro k' v hk' hv
     dsimp only at hv
     have : k' ≠ (M.x (k + 1)).seq := fun e => hk' ⟨k + 1, by omega, by omega, e.symm⟩
@@ -896,7 +943,7 @@ theorem putNext (M : SegMsg) (w : M.WF) (k : Nat) (s : CState) (now : Nat) (a : 
 
 /-- the first segment of the message is stored: all its segments are registered as being sent -/
 theorem putFirst (M : SegMsg) (w : M.WF) (s : CState) (now : Nat) (d : D M s) (hnone : aget s.segStatus M.r = none) :
-    A M 1 (put s now (M.x 1)).1 ∧ countL M.L (put s now (M.x 1)).2 = 0 ∧
+    A G M 1 (put s now (M.x 1)).1 ∧ countL M.L (put s now (M.x 1)).2 = 0 ∧
       (put s now (M.x 1)).1.ttlResp = s.ttlResp := by
   rw [put_eq]
   obtain ⟨d1, s1e, c1⟩ := removeExpiredD M s now d
@@ -913,7 +960,7 @@ theorem putFirst (M : SegMsg) (w : M.WF) (s : CState) (now : Nat) (d : D M s) (h
     rw [this, List.map_id]
   have h1key : 1 ∈ ((List.range' 1 M.n).map fun q => ((q, sSending) : Nat × Int)).map (·.1) := by
     rw [hkeys, List.mem_range'_1]; omega
-  refine ⟨⟨?_, ?_, ?_⟩, ?_, ⟨_, aget_aset_same _ _ _, ⟨?_, ?_, ?_⟩⟩, ?_, ?_, hn⟩
+  refine ⟨⟨?_, ?_, ?_⟩, ?_, ⟨_, aget_aset_same _ _ _, ⟨w.log 1, (fun _ y hy => by cases hy), ?_, ?_, ?_⟩⟩, ?_, ?_, hn⟩
   · intro k' v hk' hv
     dsimp only at hv
     have : k' ≠ (M.x 1).seq := fun e => hk' ⟨1, by omega, by omega, e.symm⟩
@@ -967,9 +1014,10 @@ theorem putFirst (M : SegMsg) (w : M.WF) (s : CState) (now : Nat) (d : D M s) (h
 /-! ### a response is looked up -/
 
 /-- the response to one of the message's segments: its status leaves SENDING, nothing is reported yet -/
-theorem respM (M : SegMsg) (w : M.WF) (k : Nat) (s : CState) (j t : Nat) (tr : Msg) (a : A M k s)
-    (h1 : 1 ≤ j) (h2 : j ≤ k) (hst : aget s.store (M.x j).seq = some (t, M.x j)) (htr : tr.seq = (M.x j).seq) :
-    A M k (updateSegOnResponse { s with store := adel s.store (M.x j).seq } tr (M.x j)) ∧
+theorem respM (M : SegMsg) (w : M.WF) (k : Nat) (s : CState) (j t : Nat) (tr : Msg) (a : A G M k s)
+    (h1 : 1 ≤ j) (h2 : j ≤ k) (hst : aget s.store (M.x j).seq = some (t, M.x j)) (htr : tr.seq = (M.x j).seq)
+    (htl : G → tr.logId = M.L) :
+    A G M k (updateSegOnResponse { s with store := adel s.store (M.x j).seq } tr (M.x j)) ∧
       (updateSegOnResponse { s with store := adel s.store (M.x j).seq } tr (M.x j)).ttlResp = s.ttlResp := by
   obtain ⟨st, hst0, hok⟩ := a.ent
   have hjn : j ≤ M.n := Nat.le_trans h2 a.kle
@@ -979,14 +1027,18 @@ theorem respM (M : SegMsg) (w : M.WF) (k : Nat) (s : CState) (j t : Nat) (tr : M
     fun i hi => aget_adel_other _ _ _ (fun e => hi (w.inj i j e))
   -- the new status entry: code c ≠ SENDING for segment j, some last response
   have hrs : ∃ c lr, respStatus st j tr = { st with status := aset st.status j c, lastResponse := lr } ∧
-      (c = sSent ∨ c = sFailed) := by
+      (c = sSent ∨ c = sFailed) ∧ (∀ y, lr = some y → y = tr ∨ st.lastResponse = some y) := by
     unfold respStatus
     split
-    · exact ⟨sFailed, some tr, rfl, Or.inr rfl⟩
+    · exact ⟨sFailed, some tr, rfl, Or.inr rfl, fun y hy => Or.inl (Option.some.inj hy).symm⟩
     · split
-      · exact ⟨sSent, _, rfl, Or.inl rfl⟩
-      · exact ⟨sFailed, some tr, rfl, Or.inr rfl⟩
-  obtain ⟨c, lr, hrs, hc⟩ := hrs
+      · refine ⟨sSent, _, rfl, Or.inl rfl, ?_⟩
+        intro y hy
+        split at hy
+        · exact Or.inr hy
+        · exact Or.inl (Option.some.inj hy).symm
+      · exact ⟨sFailed, some tr, rfl, Or.inr rfl, fun y hy => Or.inl (Option.some.inj hy).symm⟩
+  obtain ⟨c, lr, hrs, hc, hlr⟩ := hrs
   have hcne : c ≠ sSending := by
     have := codes_order
     rcases hc with h | h <;> omega
@@ -1003,7 +1055,12 @@ theorem respM (M : SegMsg) (w : M.WF) (k : Nat) (s : CState) (j t : Nat) (tr : M
     dsimp only
     rw [hrs]
   rw [hu]
-  refine ⟨⟨⟨?_, a.quiet.seg, ?_⟩, a.segM, ⟨_, aget_aset_same _ _ _, ⟨?_, ?_, ?_⟩⟩, ?_, ?_, a.kle⟩, rfl⟩
+  have hlast : G → ∀ y, lr = some y → y.logId = M.L := by
+    intro g y hy
+    rcases hlr y hy with e | e
+    · rw [e]; exact htl g
+    · exact hok.last g y e
+  refine ⟨⟨⟨?_, a.quiet.seg, ?_⟩, a.segM, ⟨_, aget_aset_same _ _ _, ⟨hok.orig, hlast, ?_, ?_, ?_⟩⟩, ?_, ?_, a.kle⟩, rfl⟩
   · intro k' v hk' hv
     exact a.quiet.store k' v hk' (aget_adel_some _ _ _ _ hv)
   · intro r' st' hr' hst'
@@ -1082,23 +1139,27 @@ theorem getD (M : SegMsg) (s : CState) (now : Nat) (resp : Msg) (d : D M s) (hl 
     exact ⟨hol, hk⟩
 
 /-- `get` in an open state -/
-theorem getA (M : SegMsg) (w : M.WF) (k : Nat) (s : CState) (now : Nat) (resp : Msg) (a : A M k s)
-    (hl : resp.logId ≠ M.L) :
+theorem getA (M : SegMsg) (w : M.WF) (k : Nat) (s : CState) (now : Nat) (resp : Msg) (a : A G M k s)
+    (hl : resp.logId ≠ M.L) (hg : G → M.IsSeq resp.seq → resp.kind = .submitSmResp ∨ resp.kind = .genericNack) :
     (Corr.get s now resp).1.ttlResp = s.ttlResp ∧
-    ((A M k (Corr.get s now resp).1 ∧ countL M.L (Corr.get s now resp).2.1 = 0) ∨
-     (D M (Corr.get s now resp).1 ∧ countL M.L (Corr.get s now resp).2.1 ≤ 1 ∧
+    ((A G M k (Corr.get s now resp).1 ∧ countL M.L (Corr.get s now resp).2.1 = 0 ∧
+       (((Corr.get s now resp).2.2 = none ∨ ¬ M.IsSeq resp.seq) → Pend M k s → Pend M k (Corr.get s now resp).1)) ∨
+     (D M (Corr.get s now resp).1 ∧ countL M.L (Corr.get s now resp).2.1 = 1 ∧
        aget (Corr.get s now resp).1.segStatus M.r = none ∧ M.n ≤ k)) ∧
     (∀ o, (Corr.get s now resp).2.2 = some o →
-      (¬ M.IsSeq resp.seq ∧ o.logId ≠ M.L) ∨ (∃ j, 1 ≤ j ∧ j ≤ M.n ∧ resp.seq = (M.x j).seq ∧ o = M.x j)) := by
+      (¬ M.IsSeq resp.seq ∧ o.logId ≠ M.L) ∨
+      (∃ j, 1 ≤ j ∧ j ≤ M.n ∧ resp.seq = (M.x j).seq ∧ o = M.x j ∧
+        aget (Corr.get s now resp).1.store (M.x j).seq = none ∧
+        aget (Corr.get s now resp).1.segStore (M.x j).seq = some (M.r, j))) := by
   rw [get_eq]
   cases h1 : aget s.store resp.seq with
   | none =>
     dsimp only
-    obtain ⟨t, r⟩ := removeExpiredA M w k s now a
+    obtain ⟨t, _, r⟩ := removeExpiredA M w k s now a
     refine ⟨t, ?_, fun o ho => by cases ho⟩
-    rcases r with r | ⟨d1, c1, g1, hnk⟩
-    · exact Or.inl r
-    · exact Or.inr ⟨d1, c1, g1, hnk⟩
+    rcases r with ⟨x, y, z⟩ | r
+    · exact Or.inl ⟨x, y, fun _ => z⟩
+    · exact Or.inr r
   | some pr =>
     obtain ⟨t0, o⟩ := pr
     dsimp only
@@ -1110,24 +1171,48 @@ theorem getA (M : SegMsg) (w : M.WF) (k : Nat) (s : CState) (now : Nat) (resp : 
         rw [hjs, h1] at this; cases this
       have h1' : aget s.store (M.x j).seq = some (t0, o) := by rw [hjs]; exact h1
       have ho : o = M.x j := (a.live j hj1 hjk _ h1').1
+      have hsegj : aget s.segStore (M.x j).seq = some (M.r, j) := (a.live j hj1 hjk _ h1').2
       subst ho
-      obtain ⟨a2, t2⟩ := respM M w k s j t0 (track resp (M.x j)) a hj1 hjk h1' (by rw [track_seq, hjs])
+      have htl : G → (track resp (M.x j)).logId = M.L := by
+        intro g
+        have hk' := hg g ⟨j, hj1, hj2, hjs⟩
+        unfold track
+        have : resp.isTrackable = true := by
+          rcases hk' with h | h <;> simp [Msg.isTrackable, h]
+        rw [if_pos this]
+        exact w.log j
+      obtain ⟨a2, t2⟩ := respM M w k s j t0 (track resp (M.x j)) a hj1 hjk h1' (by rw [track_seq, hjs]) htl
+      -- after the update the segment is out of the store and still registered
+      have hu1 := updateSeg_store { s with store := adel s.store (M.x j).seq } (track resp (M.x j)) (M.x j)
+      have hu2 := updateSeg_segStore { s with store := adel s.store (M.x j).seq } (track resp (M.x j)) (M.x j)
+      have hnone2 : aget (updateSegOnResponse { s with store := adel s.store (M.x j).seq }
+          (track resp (M.x j)) (M.x j)).store (M.x j).seq = none := by
+        rw [hu1.1]; exact aget_adel_same _ _
+      have hseg2 : aget (updateSegOnResponse { s with store := adel s.store (M.x j).seq }
+          (track resp (M.x j)) (M.x j)).segStore (M.x j).seq = some (M.r, j) := by
+        rw [hu2]; exact hsegj
       rw [← hjs] at *
-      obtain ⟨t, r⟩ := removeExpiredA M w k _ now a2
-      refine ⟨t.trans t2, ?_, fun o' ho' => by cases ho'; exact Or.inr ⟨j, hj1, hj2, rfl, rfl⟩⟩
-      rcases r with r | ⟨d1, c1, g1, hnk⟩
-      · exact Or.inl r
-      · exact Or.inr ⟨d1, c1, g1, hnk⟩
+      obtain ⟨t, kp, r⟩ := removeExpiredA M w k _ now a2
+      obtain ⟨e1, e2⟩ := kp j hj1 hj2 hnone2
+      refine ⟨t.trans t2, ?_, fun o' ho' => by
+        cases ho'
+        exact Or.inr ⟨j, hj1, hj2, rfl, rfl, e1, e2.trans hseg2⟩⟩
+      rcases r with ⟨x, y, _⟩ | r
+      · refine Or.inl ⟨x, y, ?_⟩
+        rintro (h | h)
+        · cases h
+        · exact absurd ⟨j, hj1, hj2, rfl⟩ h
+      · exact Or.inr r
     · obtain ⟨hol, hos⟩ := a.quiet.store _ (t0, o) hk h1
       obtain ⟨q1, s1⟩ := drop_other M s resp.seq a.quiet hk
       obtain ⟨q2, s2⟩ := updateSeg_frame M _ (track resp o) o q1 (track_logId M.L resp o hl hol)
         (by rw [track_seq]; exact hk)
       have a2 := a.of_same q2 (s1.trans s2)
-      obtain ⟨t, r⟩ := removeExpiredA M w k _ now a2
+      obtain ⟨t, _, r⟩ := removeExpiredA M w k _ now a2
       refine ⟨t.trans (s1.trans s2).ttl, ?_, fun o' ho' => by cases ho'; exact Or.inl ⟨hk, hol⟩⟩
-      rcases r with r | ⟨d1, c1, g1, hnk⟩
-      · exact Or.inl r
-      · exact Or.inr ⟨d1, c1, g1, hnk⟩
+      rcases r with ⟨x, y, z⟩ | r
+      · exact Or.inl ⟨x, y, fun _ hp => z (Pend.of_same (s1.trans s2) hp)⟩
+      · exact Or.inr r
 
 /-! ### the attributable branch of `_handle_response` -/
 
@@ -1148,16 +1233,17 @@ theorem putDeliveryD (M : SegMsg) (s : CState) (now : Nat) (id : List Nat) (o : 
   exact ⟨d1.of_same (d1.quiet.congr rfl rfl rfl) (SameM.of_eq rfl rfl rfl rfl),
     s1.trans (SameM.of_eq rfl rfl rfl rfl), c1⟩
 
-theorem putDeliveryA (M : SegMsg) (w : M.WF) (k : Nat) (s : CState) (now : Nat) (id : List Nat) (o : Msg) (a : A M k s) :
-    (putDelivery s now id o).1.ttlResp = s.ttlResp ∧
-    ((A M k (putDelivery s now id o).1 ∧ countL M.L (putDelivery s now id o).2 = 0) ∨
-     (D M (putDelivery s now id o).1 ∧ countL M.L (putDelivery s now id o).2 ≤ 1 ∧
+theorem putDeliveryA (M : SegMsg) (w : M.WF) (k : Nat) (s : CState) (now : Nat) (id : List Nat) (o : Msg) (a : A G M k s) :
+    (putDelivery s now id o).1.ttlResp = s.ttlResp ∧ KeepSeg M s (putDelivery s now id o).1 ∧
+    ((A G M k (putDelivery s now id o).1 ∧ countL M.L (putDelivery s now id o).2 = 0 ∧
+       (Pend M k s → Pend M k (putDelivery s now id o).1)) ∨
+     (D M (putDelivery s now id o).1 ∧ countL M.L (putDelivery s now id o).2 = 1 ∧
        aget (putDelivery s now id o).1.segStatus M.r = none ∧ M.n ≤ k)) := by
-  obtain ⟨t1, r1⟩ := removeExpiredA M w k s now a
+  obtain ⟨t1, k1, r1⟩ := removeExpiredA M w k s now a
   unfold putDelivery
-  refine ⟨t1, ?_⟩
-  rcases r1 with ⟨a1, c1⟩ | ⟨d1, c1, g1, hnk⟩
-  · exact Or.inl ⟨a1.of_same (a1.quiet.congr rfl rfl rfl) (SameM.of_eq rfl rfl rfl rfl), c1⟩
+  refine ⟨t1, k1, ?_⟩
+  rcases r1 with ⟨a1, c1, p1⟩ | ⟨d1, c1, g1, hnk⟩
+  · exact Or.inl ⟨a1.of_same (a1.quiet.congr rfl rfl rfl) (SameM.of_eq rfl rfl rfl rfl), c1, p1⟩
   · exact Or.inr ⟨d1.of_same (d1.quiet.congr rfl rfl rfl) (SameM.of_eq rfl rfl rfl rfl), c1, g1, hnk⟩
 
 /-- the segment status looked up for one of the message's segments when its entry is gone -/
@@ -1187,7 +1273,8 @@ theorem fixLast_gone (M : SegMsg) (s : CState) (a b : Msg) (j : Nat) (h1 : 1 ≤
 
 /-- `fixLast` on one of the message's segments only replaces the stored last response -/
 theorem fixLastM (M : SegMsg) (k : Nat) (s : CState) (a b : Msg) (j : Nat) (h1 : 1 ≤ j) (h2 : j ≤ M.n)
-    (ha : a.seq = (M.x j).seq) (ak : A M k s) : A M k (fixLast s a b) ∧ (fixLast s a b).ttlResp = s.ttlResp := by
+    (ha : a.seq = (M.x j).seq) (hb : b.logId = M.L) (ak : A G M k s) :
+    A G M k (fixLast s a b) ∧ (fixLast s a b).ttlResp = s.ttlResp := by
   unfold fixLast
   rw [ha]
   cases hq : aget s.segStore (M.x j).seq with
@@ -1204,7 +1291,8 @@ theorem fixLastM (M : SegMsg) (k : Nat) (s : CState) (a b : Msg) (j : Nat) (h1 :
       · refine ⟨?_, rfl⟩
         obtain ⟨st0, hst0, hok⟩ := ak.ent
         rw [hst] at hst0; cases hst0
-        refine ⟨⟨ak.quiet.store, ak.quiet.seg, ?_⟩, ak.segM, ⟨_, aget_aset_same _ _ _, ⟨hok.keys, hok.codes, hok.sending⟩⟩,
+        refine ⟨⟨ak.quiet.store, ak.quiet.seg, ?_⟩, ak.segM,
+          ⟨_, aget_aset_same _ _ _, ⟨hok.orig, (fun _ y hy => by cases hy; exact hb), hok.keys, hok.codes, hok.sending⟩⟩,
           ak.live, ak.unput, ak.kle⟩
         intro r' st' hr' hst'
         dsimp only at hst'
@@ -1213,17 +1301,17 @@ theorem fixLastM (M : SegMsg) (k : Nat) (s : CState) (a b : Msg) (j : Nat) (h1 :
       · exact ⟨ak, rfl⟩
 
 /-- the cumulated status looked up after a response to one of the message's segments -/
-theorem gsA (M : SegMsg) (w : M.WF) (k : Nat) (s : CState) (j : Nat) (h1 : 1 ≤ j) (h2 : j ≤ M.n) (a : A M k s) :
+theorem gsA (M : SegMsg) (w : M.WF) (k : Nat) (s : CState) (j : Nat) (h1 : 1 ≤ j) (h2 : j ≤ M.n) (a : A G M k s) :
     (getSegmented s (M.x j).seq false).1.ttlResp = s.ttlResp ∧
-    (getSegmented s (M.x j).seq false = (s, none, 0) ∨
-     (∃ st, (getSegmented s (M.x j).seq false).2.1 = some st ∧
-       (((getSegmented s (M.x j).seq false).1 = s ∧ (getSegmented s (M.x j).seq false).2.2 = sSending) ∨
+    ((aget s.segStore (M.x j).seq = none ∧ getSegmented s (M.x j).seq false = (s, none, 0)) ∨
+     (∃ st, (getSegmented s (M.x j).seq false).2.1 = some st ∧ StatOK G M k s st ∧
+       (((getSegmented s (M.x j).seq false).1 = s ∧ (getSegmented s (M.x j).seq false).2.2 = sSending ∧ Pend M k s) ∨
         (D M (getSegmented s (M.x j).seq false).1 ∧
           ((getSegmented s (M.x j).seq false).2.2 = sSent ∨ (getSegmented s (M.x j).seq false).2.2 = sFailed ∨
            (getSegmented s (M.x j).seq false).2.2 = sExpired) ∧ M.n ≤ k)))) := by
   unfold getSegmented
   cases hq : aget s.segStore (M.x j).seq with
-  | none => exact ⟨rfl, Or.inl rfl⟩
+  | none => exact ⟨rfl, Or.inl ⟨rfl, rfl⟩⟩
   | some p =>
     have := a.segM j p h1 h2 hq
     subst this
@@ -1238,7 +1326,7 @@ theorem gsA (M : SegMsg) (w : M.WF) (k : Nat) (s : CState) (j : Nat) (h1 : 1 ≤
       rw [hm]
       have hnot : ¬ (sSending ≠ sSending ∧ sSending ≠ sSent) := fun h => h.1 rfl
       rw [if_neg hnot]
-      exact ⟨rfl, Or.inr ⟨st, rfl, Or.inl ⟨rfl, rfl⟩⟩⟩
+      exact ⟨rfl, Or.inr ⟨st, rfl, hok, Or.inl ⟨rfl, rfl, hp⟩⟩⟩
     · have hm : maxCode st.status ≠ sSending := fun e => hp ((hok.max_sending w).mp e)
       obtain ⟨pm, hpm, hpe⟩ := maxCode_mem st.status (hok.ne w)
       have hcode : IsCode (maxCode st.status) := hpe ▸ hok.codes pm hpm
@@ -1254,9 +1342,9 @@ theorem gsA (M : SegMsg) (w : M.WF) (k : Nat) (s : CState) (j : Nat) (h1 : 1 ≤
         exact hp ⟨M.n, w.npos, Nat.le_refl _, Or.inl (by omega)⟩
       by_cases hs : maxCode st.status = sSent
       · rw [if_neg (by simp [hs])]
-        exact ⟨rfl, Or.inr ⟨st, rfl, Or.inr ⟨⟨a.quiet, a.segM, hgone⟩, hfin, hnk⟩⟩⟩
+        exact ⟨rfl, Or.inr ⟨st, rfl, hok, Or.inr ⟨⟨a.quiet, a.segM, hgone⟩, hfin, hnk⟩⟩⟩
       · rw [if_pos ⟨hm, hs⟩]
-        refine ⟨rfl, Or.inr ⟨st, rfl, Or.inr ⟨⟨⟨a.quiet.store, a.quiet.seg, ?_⟩, a.segM, hgone⟩, hfin, hnk⟩⟩⟩
+        refine ⟨rfl, Or.inr ⟨st, rfl, hok, Or.inr ⟨⟨⟨a.quiet.store, a.quiet.seg, ?_⟩, a.segM, hgone⟩, hfin, hnk⟩⟩⟩
         intro r' st' hr' hst'
         exact a.quiet.stat r' st' hr' (aget_adel_some _ _ _ _ hst')
 
@@ -1316,29 +1404,31 @@ theorem attrOtherD (M : SegMsg) (g1 : CState) (now : Nat) (resp o : Msg) (d : D 
           simp [hL, this]
 
 /-- the branch on a response to another message, open state -/
-theorem attrOtherA (M : SegMsg) (w : M.WF) (k : Nat) (g1 : CState) (now : Nat) (resp o : Msg) (a : A M k g1)
+theorem attrOtherA (M : SegMsg) (w : M.WF) (k : Nat) (g1 : CState) (now : Nat) (resp o : Msg) (a : A G M k g1)
     (hk : ¬ M.IsSeq resp.seq) (ho : o.logId ≠ M.L) :
     (attrBranch g1 now resp o).1.ttlResp = g1.ttlResp ∧
-    ((A M k (attrBranch g1 now resp o).1 ∧ countL M.L (attrBranch g1 now resp o).2.1 = 0) ∨
-     (D M (attrBranch g1 now resp o).1 ∧ countL M.L (attrBranch g1 now resp o).2.1 ≤ 1 ∧ M.n ≤ k)) ∧
+    ((A G M k (attrBranch g1 now resp o).1 ∧ countL M.L (attrBranch g1 now resp o).2.1 = 0 ∧
+       (Pend M k g1 → Pend M k (attrBranch g1 now resp o).1)) ∨
+     (D M (attrBranch g1 now resp o).1 ∧ countL M.L (attrBranch g1 now resp o).2.1 = 1 ∧ M.n ≤ k)) ∧
     hL M.L (attrBranch g1 now resp o).2.2 = 0 := by
   have hr' : ({ resp with logId := o.logId, extra := o.extra } : Msg).logId ≠ M.L := ho
   generalize hrd : ({ resp with logId := o.logId, extra := o.extra } : Msg) = resp' at hr'
   obtain ⟨q1, s1⟩ := fixLast_frame M g1 resp resp' a.quiet hr' hk
-  have a1 : A M k (fixLast g1 resp resp') := a.of_same q1 s1
+  have a1 : A G M k (fixLast g1 resp resp') := a.of_same q1 s1
   have hpd : ∃ pd : CState × List Out,
       pd = (if resp.kind = .submitSmResp ∧ resp.status = 0 then putDelivery (fixLast g1 resp resp') now resp.msgId o
             else (fixLast g1 resp resp', [])) ∧
       pd.1.ttlResp = g1.ttlResp ∧
-      ((A M k pd.1 ∧ countL M.L pd.2 = 0) ∨ (D M pd.1 ∧ countL M.L pd.2 ≤ 1 ∧ M.n ≤ k)) := by
+      ((A G M k pd.1 ∧ countL M.L pd.2 = 0 ∧ (Pend M k g1 → Pend M k pd.1)) ∨
+       (D M pd.1 ∧ countL M.L pd.2 = 1 ∧ M.n ≤ k)) := by
     refine ⟨_, rfl, ?_⟩
     split
-    · obtain ⟨t, r⟩ := putDeliveryA M w k _ now resp.msgId o a1
+    · obtain ⟨t, _, r⟩ := putDeliveryA M w k _ now resp.msgId o a1
       refine ⟨t.trans s1.ttl, ?_⟩
-      rcases r with r | ⟨x, y, _, z⟩
-      · exact Or.inl r
+      rcases r with ⟨x, y, z⟩ | ⟨x, y, _, z⟩
+      · exact Or.inl ⟨x, y, fun hp => z (Pend.of_same s1 hp)⟩
       · exact Or.inr ⟨x, y, z⟩
-    · exact ⟨s1.ttl, Or.inl ⟨a1, by simp [countL]⟩⟩
+    · exact ⟨s1.ttl, Or.inl ⟨a1, by simp [countL], fun hp => Pend.of_same s1 hp⟩⟩
   obtain ⟨pd, hpdeq, tp, rp⟩ := hpd
   have hqp : QuietM M pd.1 := by
     rcases rp with ⟨x, _⟩ | ⟨x, _⟩
@@ -1349,10 +1439,11 @@ theorem attrOtherA (M : SegMsg) (w : M.WF) (k : Nat) (g1 : CState) (now : Nat) (
   rw [hrd]
   dsimp only
   rw [← hpdeq]
-  have rp' : (A M k (getSegmented pd.1 resp.seq false).1 ∧ countL M.L pd.2 = 0) ∨
-      (D M (getSegmented pd.1 resp.seq false).1 ∧ countL M.L pd.2 ≤ 1 ∧ M.n ≤ k) := by
-    rcases rp with ⟨x, y⟩ | ⟨x, y, z⟩
-    · exact Or.inl ⟨x.of_same qg sg, y⟩
+  have rp' : (A G M k (getSegmented pd.1 resp.seq false).1 ∧ countL M.L pd.2 = 0 ∧
+        (Pend M k g1 → Pend M k (getSegmented pd.1 resp.seq false).1)) ∨
+      (D M (getSegmented pd.1 resp.seq false).1 ∧ countL M.L pd.2 = 1 ∧ M.n ≤ k) := by
+    rcases rp with ⟨x, y, z⟩ | ⟨x, y, z⟩
+    · exact Or.inl ⟨x.of_same qg sg, y, fun hp => Pend.of_same sg (z hp)⟩
     · exact Or.inr ⟨x.of_same qg sg, y, z⟩
   refine ⟨sg.ttl.trans tp, ?_, ?_⟩
   · cases hgs : (getSegmented pd.1 resp.seq false).2.1 with
@@ -1419,26 +1510,36 @@ theorem attrM_D (M : SegMsg) (w : M.WF) (g1 : CState) (now : Nat) (resp : Msg) (
 
 /-- the branch on the response to one of the message's segments, message still open -/
 theorem attrM_A (M : SegMsg) (w : M.WF) (k : Nat) (g1 : CState) (now : Nat) (resp : Msg) (j : Nat)
-    (h1 : 1 ≤ j) (h2 : j ≤ M.n) (hs : resp.seq = (M.x j).seq) (a : A M k g1) :
+    (h1 : 1 ≤ j) (h2 : j ≤ M.n) (hs : resp.seq = (M.x j).seq) (a : A G M k g1)
+    (hsj : aget g1.store (M.x j).seq = none) (hgj : aget g1.segStore (M.x j).seq = some (M.r, j)) :
     (attrBranch g1 now resp (M.x j)).1.ttlResp = g1.ttlResp ∧
-    ((A M k (attrBranch g1 now resp (M.x j)).1 ∧
-        countL M.L (attrBranch g1 now resp (M.x j)).2.1 + hL M.L (attrBranch g1 now resp (M.x j)).2.2 = 0) ∨
+    ((A G M k (attrBranch g1 now resp (M.x j)).1 ∧
+        countL M.L (attrBranch g1 now resp (M.x j)).2.1 + hL M.L (attrBranch g1 now resp (M.x j)).2.2 = 0 ∧
+        Pend M k (attrBranch g1 now resp (M.x j)).1) ∨
      (D M (attrBranch g1 now resp (M.x j)).1 ∧
-        countL M.L (attrBranch g1 now resp (M.x j)).2.1 + hL M.L (attrBranch g1 now resp (M.x j)).2.2 ≤ 1 ∧ M.n ≤ k)) := by
-  generalize hrd : ({ resp with logId := (M.x j).logId, extra := (M.x j).extra } : Msg) = resp'
-  obtain ⟨a1, t1⟩ := fixLastM M k g1 resp resp' j h1 h2 hs a
+        Cl G (countL M.L (attrBranch g1 now resp (M.x j)).2.1 + hL M.L (attrBranch g1 now resp (M.x j)).2.2) ∧
+        M.n ≤ k)) := by
+  have hr'L : ({ resp with logId := (M.x j).logId, extra := (M.x j).extra } : Msg).logId = M.L := w.log j
+  generalize hrd : ({ resp with logId := (M.x j).logId, extra := (M.x j).extra } : Msg) = resp' at hr'L
+  obtain ⟨a1, t1⟩ := fixLastM M k g1 resp resp' j h1 h2 hs hr'L a
+  have hf1 := fixLast_store g1 resp resp'
+  have hf2 := fixLast_segStore g1 resp resp'
   have hpd : ∃ pd : CState × List Out,
       pd = (if resp.kind = .submitSmResp ∧ resp.status = 0 then putDelivery (fixLast g1 resp resp') now resp.msgId (M.x j)
             else (fixLast g1 resp resp', [])) ∧
-      pd.1.ttlResp = g1.ttlResp ∧
-      ((A M k pd.1 ∧ countL M.L pd.2 = 0) ∨
-       (D M pd.1 ∧ countL M.L pd.2 ≤ 1 ∧ aget pd.1.segStatus M.r = none ∧ M.n ≤ k)) := by
+      pd.1.ttlResp = g1.ttlResp ∧ aget pd.1.segStore (M.x j).seq = some (M.r, j) ∧
+      ((A G M k pd.1 ∧ countL M.L pd.2 = 0) ∨
+       (D M pd.1 ∧ countL M.L pd.2 = 1 ∧ aget pd.1.segStatus M.r = none ∧ M.n ≤ k)) := by
     refine ⟨_, rfl, ?_⟩
     split
-    · obtain ⟨t, r⟩ := putDeliveryA M w k _ now resp.msgId (M.x j) a1
-      exact ⟨t.trans t1, r⟩
-    · exact ⟨t1, Or.inl ⟨a1, by simp [countL]⟩⟩
-  obtain ⟨pd, hpdeq, tp, rp⟩ := hpd
+    · obtain ⟨t, kp, r⟩ := putDeliveryA M w k _ now resp.msgId (M.x j) a1
+      obtain ⟨_, e2⟩ := kp j h1 h2 (by rw [hf1.1]; exact hsj)
+      refine ⟨t.trans t1, by rw [e2, hf2]; exact hgj, ?_⟩
+      rcases r with ⟨x, y, _⟩ | r
+      · exact Or.inl ⟨x, y⟩
+      · exact Or.inr r
+    · exact ⟨t1, by rw [hf2]; exact hgj, Or.inl ⟨a1, by simp [countL]⟩⟩
+  obtain ⟨pd, hpdeq, tp, hsegp, rp⟩ := hpd
   have hpos : (M.x j).sarTotal > 0 := by rw [w.tot]; exact w.npos
   unfold attrBranch
   rw [hrd]
@@ -1446,14 +1547,10 @@ theorem attrM_A (M : SegMsg) (w : M.WF) (k : Nat) (g1 : CState) (now : Nat) (res
   rw [← hpdeq, hs]
   rcases rp with ⟨ap, cp⟩ | ⟨dp, cp, np, hnk⟩
   · obtain ⟨tg, rg⟩ := gsA M w k pd.1 j h1 h2 ap
-    rcases rg with hg | ⟨st, hst, hg⟩
-    · rw [hg]
-      dsimp only
-      refine ⟨tp, Or.inl ⟨ap, ?_⟩⟩
-      rw [if_pos hpos, countL_append, cp]
-      simp [countL, hL]
-    · rcases hg with ⟨e1, e2⟩ | ⟨dg, hfin, hnk⟩
-      · refine ⟨tg.trans tp, Or.inl ⟨by rw [e1]; exact ap, ?_⟩⟩
+    rcases rg with ⟨hnone, _⟩ | ⟨st, hst, hok, hg⟩
+    · rw [hsegp] at hnone; cases hnone
+    · rcases hg with ⟨e1, e2, hp⟩ | ⟨dg, hfin, hnk⟩
+      · refine ⟨tg.trans tp, Or.inl ⟨by rw [e1]; exact ap, ?_, by rw [e1]; exact hp⟩⟩
         rw [hst]
         dsimp only
         rw [e2]
@@ -1468,22 +1565,30 @@ theorem attrM_A (M : SegMsg) (w : M.WF) (k : Nat) (g1 : CState) (now : Nat) (res
         · rw [if_pos he]
           have hne : ¬ (sExpired = sSending) := by decide
           rw [he, if_neg hne, if_pos rfl]
-          have := countL_single_le M.L (Out.sendError st.orig)
-          simp only [hL]; omega
+          have : countL M.L [Out.sendError st.orig] = 1 := by simp [countL, isL, hok.orig]
+          rw [this]
+          simpa [hL] using Cl.one G
         · rw [if_neg he]
           have hns : ¬ ((getSegmented pd.1 (M.x j).seq false).2.2 = sSending) := by
             have := codes_order
             rcases hfin with h | h | h <;> (rw [h]; omega)
           rw [if_neg hns, if_neg he]
-          have := hL_le M.L (Handled.msg (st.lastResponse.getD resp'))
-          simp only [countL, List.countP_nil]; omega
+          have hle := hL_le M.L (Handled.msg (st.lastResponse.getD resp'))
+          refine ⟨by simp only [countL, List.countP_nil]; omega, ?_⟩
+          intro g
+          have : (st.lastResponse.getD resp').logId = M.L := by
+            cases hlr : st.lastResponse with
+            | none => exact hr'L
+            | some y => exact hok.last g y hlr
+          simp [countL, hL, this]
   · have hgs : getSegmented pd.1 (M.x j).seq false = (pd.1, none, 0) := gs_gone M pd.1 j h1 h2 dp.segM np
     rw [hgs]
     dsimp only
     refine ⟨tp, Or.inr ⟨dp, ?_, hnk⟩⟩
     rw [if_pos hpos, countL_append]
     simp only [countL, List.countP_nil, hL, Nat.add_zero]
-    exact cp
+    have : List.countP (isL M.L) pd.2 = 1 := cp
+    rw [this]; exact Cl.one G
 
 /-! ### `_handle_response` as a whole -/
 
@@ -1512,62 +1617,79 @@ theorem handleResponseD (M : SegMsg) (s : CState) (now : Nat) (resp : Msg) (d : 
       · rw [if_neg hat]
         exact ⟨dg, sg, by rw [cg, hmsg]⟩
 
-theorem handleResponseA (M : SegMsg) (w : M.WF) (k : Nat) (s : CState) (now : Nat) (resp : Msg) (a : A M k s)
-    (hl : resp.logId ≠ M.L) :
+theorem handleResponseA (M : SegMsg) (w : M.WF) (k : Nat) (s : CState) (now : Nat) (resp : Msg) (a : A G M k s)
+    (hl : resp.logId ≠ M.L) (hg : G → M.IsSeq resp.seq → resp.kind = .submitSmResp ∨ resp.kind = .genericNack) :
     (handleResponse s now resp).1.ttlResp = s.ttlResp ∧
-    ((A M k (handleResponse s now resp).1 ∧
-        countL M.L (handleResponse s now resp).2.1 + hL M.L (handleResponse s now resp).2.2.2 = 0) ∨
+    ((A G M k (handleResponse s now resp).1 ∧
+        countL M.L (handleResponse s now resp).2.1 + hL M.L (handleResponse s now resp).2.2.2 = 0 ∧
+        (G → Pend M k s → Pend M k (handleResponse s now resp).1)) ∨
      (D M (handleResponse s now resp).1 ∧
-        countL M.L (handleResponse s now resp).2.1 + hL M.L (handleResponse s now resp).2.2.2 ≤ 1 ∧ M.n ≤ k)) := by
-  obtain ⟨tg, rg, hog⟩ := getA M w k s now resp a hl
+        Cl G (countL M.L (handleResponse s now resp).2.1 + hL M.L (handleResponse s now resp).2.2.2) ∧ M.n ≤ k)) := by
+  obtain ⟨tg, rg, hog⟩ := getA M w k s now resp a hl hg
   rw [handleResponse_eq]
   have hmsg : hL M.L (Handled.msg resp) = 0 := by simp [hL, hl]
   have hdrop : hL M.L Handled.dropped = 0 := rfl
   -- when the hook gets the response as it is, or nothing: the outcome count is that of `get`
-  have hplain : ∀ h : Handled, hL M.L h = 0 →
-      ((A M k (Corr.get s now resp).1 ∧ countL M.L (Corr.get s now resp).2.1 + hL M.L h = 0) ∨
-       (D M (Corr.get s now resp).1 ∧ countL M.L (Corr.get s now resp).2.1 + hL M.L h ≤ 1 ∧ M.n ≤ k)) := by
-    intro h hh
+  have hplain : ∀ h : Handled, hL M.L h = 0 → (G → ((Corr.get s now resp).2.2 = none ∨ ¬ M.IsSeq resp.seq)) →
+      ((A G M k (Corr.get s now resp).1 ∧ countL M.L (Corr.get s now resp).2.1 + hL M.L h = 0 ∧
+          (G → Pend M k s → Pend M k (Corr.get s now resp).1)) ∨
+       (D M (Corr.get s now resp).1 ∧ Cl G (countL M.L (Corr.get s now resp).2.1 + hL M.L h) ∧ M.n ≤ k)) := by
+    intro h hh hcase
     rw [hh, Nat.add_zero]
-    rcases rg with r | ⟨x, y, _, z⟩
-    · exact Or.inl r
-    · exact Or.inr ⟨x, y, z⟩
+    rcases rg with ⟨x, y, z⟩ | ⟨x, y, _, z⟩
+    · exact Or.inl ⟨x, y, fun g hp => z (hcase g) hp⟩
+    · exact Or.inr ⟨x, by rw [y]; exact Cl.one G, z⟩
   cases hres : (Corr.get s now resp).2.2 with
   | none =>
     dsimp only
-    exact ⟨tg, hplain _ hmsg⟩
+    exact ⟨tg, hplain _ hmsg (fun _ => Or.inl hres)⟩
   | some o =>
     dsimp only
+    -- under `G` a response carrying one of the message's numbers is attributable and not mismatched
+    have hgood : G → M.IsSeq resp.seq → mismatch resp o = false ∧ attributable resp o = true := by
+      intro g hk
+      rcases hog o hres with ⟨hk', _⟩ | ⟨j, _, _, _, hoj, _⟩
+      · exact absurd hk hk'
+      · subst hoj
+        rcases hg g hk with h | h
+        · simp [mismatch, attributable, h, requestKindOf, w.kind j, Msg.isSubmitLike]
+        · simp [mismatch, attributable, h, w.kind j, Msg.isSubmitLike]
     by_cases hmm : mismatch resp o = true
     · rw [if_pos hmm]
-      exact ⟨tg, hplain _ hdrop⟩
+      refine ⟨tg, hplain _ hdrop (fun g => Or.inr (fun hk => ?_))⟩
+      rw [(hgood g hk).1] at hmm; cases hmm
     · rw [if_neg hmm]
       by_cases hat : attributable resp o = true
       swap
       · rw [if_neg hat]
-        exact ⟨tg, hplain _ hmsg⟩
+        refine ⟨tg, hplain _ hmsg (fun g => Or.inr (fun hk => ?_))⟩
+        exact hat (hgood g hk).2
       rw [if_pos hat]
       dsimp only
-      rcases hog o hres with ⟨hk, hol⟩ | ⟨j, hj1, hj2, hjs, hoj⟩
+      rcases hog o hres with ⟨hk, hol⟩ | ⟨j, hj1, hj2, hjs, hoj, hsj, hgj⟩
       · -- a response to another message
-        rcases rg with ⟨ag, cg⟩ | ⟨dg, cg, _, hnk⟩
+        rcases rg with ⟨ag, cg, pg⟩ | ⟨dg, cg, _, hnk⟩
         · obtain ⟨t, r, e⟩ := attrOtherA M w k (Corr.get s now resp).1 now resp o ag hk hol
           refine ⟨t.trans tg, ?_⟩
           rw [countL_append, cg, e, Nat.zero_add, Nat.add_zero]
-          exact r
+          rcases r with ⟨x, y, z⟩ | ⟨x, y, z⟩
+          · exact Or.inl ⟨x, y, fun _ hp => z (pg (Or.inr hk) hp)⟩
+          · exact Or.inr ⟨x, by rw [y]; exact Cl.one G, z⟩
         · obtain ⟨x, y, c, e⟩ := attrOtherD M (Corr.get s now resp).1 now resp o dg hk hol
           refine ⟨y.ttl.trans tg, Or.inr ⟨x, ?_, hnk⟩⟩
-          rw [countL_append, c, e]; omega
+          rw [countL_append, c, e, cg]; exact Cl.one G
       · -- the response to one of the message's own segments
         subst hoj
-        rcases rg with ⟨ag, cg⟩ | ⟨dg, cg, ng, hnk⟩
-        · obtain ⟨t, r⟩ := attrM_A M w k (Corr.get s now resp).1 now resp j hj1 hj2 hjs ag
+        rcases rg with ⟨ag, cg, _⟩ | ⟨dg, cg, ng, hnk⟩
+        · obtain ⟨t, r⟩ := attrM_A M w k (Corr.get s now resp).1 now resp j hj1 hj2 hjs ag hsj hgj
           refine ⟨t.trans tg, ?_⟩
           rw [countL_append, cg, Nat.zero_add]
-          exact r
+          rcases r with ⟨x, y, z⟩ | r
+          · exact Or.inl ⟨x, y, fun _ _ => z⟩
+          · exact Or.inr r
         · obtain ⟨x, t, c, e⟩ := attrM_D M w (Corr.get s now resp).1 now resp j hj1 hj2 hjs dg ng
           refine ⟨t.trans tg, Or.inr ⟨x, ?_, hnk⟩⟩
-          rw [countL_append, c, e]; omega
+          rw [countL_append, c, e, cg]; exact Cl.one G
 
 /-! ### inbound deliver_sm that is not a receipt (it runs the same sweeps) -/
 
@@ -1590,11 +1712,12 @@ theorem handleDeliverD (M : SegMsg) (s : CState) (now : Nat) (dm : Msg) (d : D M
       exact ⟨a, (SameM.of_eq (M := M) (s := s) (s' := storeSeg s dm.sarRef now (nextSegs s dm)) rfl rfl rfl rfl).trans b, c⟩
   · exact ⟨d, SameM.refl M s, by simp [countL]⟩
 
-theorem handleDeliverA (M : SegMsg) (w : M.WF) (k : Nat) (s : CState) (now : Nat) (dm : Msg) (a : A M k s)
+theorem handleDeliverA (M : SegMsg) (w : M.WF) (k : Nat) (s : CState) (now : Nat) (dm : Msg) (a : A G M k s)
     (hr : dm.isReceipt = false) :
     (handleDeliver s now dm).1.ttlResp = s.ttlResp ∧
-    ((A M k (handleDeliver s now dm).1 ∧ countL M.L (handleDeliver s now dm).2.1 = 0) ∨
-     (D M (handleDeliver s now dm).1 ∧ countL M.L (handleDeliver s now dm).2.1 ≤ 1 ∧ M.n ≤ k)) := by
+    ((A G M k (handleDeliver s now dm).1 ∧ countL M.L (handleDeliver s now dm).2.1 = 0 ∧
+       (Pend M k s → Pend M k (handleDeliver s now dm).1)) ∨
+     (D M (handleDeliver s now dm).1 ∧ countL M.L (handleDeliver s now dm).2.1 = 1 ∧ M.n ≤ k)) := by
   unfold handleDeliver
   rw [hr]
   simp only [Bool.false_eq_true, if_false]
@@ -1602,22 +1725,36 @@ theorem handleDeliverA (M : SegMsg) (w : M.WF) (k : Nat) (s : CState) (now : Nat
   · dsimp only
     unfold putDeliverySegmented
     split
-    · have a0 : A M k (dropSeg s dm.sarRef) := a.of_same (a.quiet.congr rfl rfl rfl) (SameM.of_eq rfl rfl rfl rfl)
-      obtain ⟨t, r⟩ := removeExpiredA M w k _ now a0
+    · have s0 : SameM M s (dropSeg s dm.sarRef) := SameM.of_eq rfl rfl rfl rfl
+      have a0 : A G M k (dropSeg s dm.sarRef) := a.of_same (a.quiet.congr rfl rfl rfl) s0
+      obtain ⟨t, _, r⟩ := removeExpiredA M w k _ now a0
       refine ⟨t, ?_⟩
-      rcases r with r | ⟨x, y, _, z⟩
-      · exact Or.inl r
+      rcases r with ⟨x, y, z⟩ | ⟨x, y, _, z⟩
+      · exact Or.inl ⟨x, y, fun hp => z (Pend.of_same s0 hp)⟩
       · exact Or.inr ⟨x, y, z⟩
-    · have a0 : A M k (storeSeg s dm.sarRef now (nextSegs s dm)) :=
-        a.of_same (a.quiet.congr rfl rfl rfl) (SameM.of_eq rfl rfl rfl rfl)
-      obtain ⟨t, r⟩ := removeExpiredA M w k _ now a0
+    · have s0 : SameM M s (storeSeg s dm.sarRef now (nextSegs s dm)) := SameM.of_eq rfl rfl rfl rfl
+      have a0 : A G M k (storeSeg s dm.sarRef now (nextSegs s dm)) := a.of_same (a.quiet.congr rfl rfl rfl) s0
+      obtain ⟨t, _, r⟩ := removeExpiredA M w k _ now a0
       refine ⟨t, ?_⟩
-      rcases r with r | ⟨x, y, _, z⟩
-      · exact Or.inl r
+      rcases r with ⟨x, y, z⟩ | ⟨x, y, _, z⟩
+      · exact Or.inl ⟨x, y, fun hp => z (Pend.of_same s0 hp)⟩
       · exact Or.inr ⟨x, y, z⟩
-  · exact ⟨rfl, Or.inl ⟨a, by simp [countL]⟩⟩
+  · exact ⟨rfl, Or.inl ⟨a, by simp [countL], fun hp => hp⟩⟩
 
 /-! ### histories -/
+
+theorem putTail_store (s1 : CState) (now : Nat) (m : Msg) : aget (putTail s1 now m).store m.seq = some (now, m) := by
+  unfold putTail
+  dsimp only
+  split <;> exact aget_aset_same _ _ _
+
+theorem pend_after_put (M : SegMsg) (s : CState) (now j : Nat) (h1 : 1 ≤ j) (h2 : j ≤ M.n) :
+    Pend M j (put s now (M.x j)).1 := by
+  refine ⟨j, h1, h2, Or.inr ?_⟩
+  rw [put_eq]
+  dsimp only
+  rw [putTail_store]
+  simp
 
 /-- the rest of the traffic as seen from the message: requests with other sequence numbers, other log ids and —
     when they are segments — another reference number; PDUs from the wire carry no log id; deliver_sm that are
@@ -1626,6 +1763,11 @@ def CleanS (M : SegMsg) : Op → Prop
   | .put _ m' => ¬ M.IsSeq m'.seq ∧ m'.logId ≠ M.L ∧ (m'.sarTotal > 0 → m'.sarRef ≠ M.r)
   | .resp _ r => r.logId ≠ M.L
   | .deliver _ d => d.isReceipt = false
+
+/-- a response carrying the number of one of the message's segments is a submit_sm_resp or a generic_nack -/
+def GoodS (M : SegMsg) : Op → Prop
+  | .resp _ r => M.IsSeq r.seq → r.kind = .submitSmResp ∨ r.kind = .genericNack
+  | _ => True
 
 /-- `ops` is other traffic into which the message's segments `j, j+1, …, n` are woven in this order, each stored
     at any time -/
@@ -1647,19 +1789,30 @@ theorem stepD (M : SegMsg) (s : CState) (op : Op) (d : D M s) (hc : CleanS M op)
     obtain ⟨a, b, c⟩ := handleDeliverD M s now dm d hc
     exact ⟨a, b, by simpa [stepOp, outcomes] using c⟩
 
-theorem stepA (M : SegMsg) (w : M.WF) (k : Nat) (s : CState) (op : Op) (a : A M k s) (hc : CleanS M op) :
-    (A M k (stepOp s op).1 ∧ outcomes M.L (stepOp s op).2 = 0) ∨
-    (D M (stepOp s op).1 ∧ outcomes M.L (stepOp s op).2 ≤ 1 ∧ M.n ≤ k) := by
+theorem stepA (M : SegMsg) (w : M.WF) (k : Nat) (s : CState) (op : Op) (a : A G M k s) (hc : CleanS M op)
+    (hg : G → GoodS M op) :
+    (A G M k (stepOp s op).1 ∧ outcomes M.L (stepOp s op).2 = 0 ∧ (G → Pend M k s → Pend M k (stepOp s op).1)) ∨
+    (D M (stepOp s op).1 ∧ Cl G (outcomes M.L (stepOp s op).2) ∧ M.n ≤ k) := by
   cases op with
   | put now m' =>
     obtain ⟨_, r⟩ := putOtherA M w k s now m' a hc.1 hc.2.1 hc.2.2
-    simpa [stepOp, outcomes] using r
+    rcases r with ⟨x, y, z⟩ | ⟨x, y, z⟩
+    · exact Or.inl ⟨x, by simpa [stepOp, outcomes] using y, fun _ => z⟩
+    · refine Or.inr ⟨x, ?_, z⟩
+      have : outcomes M.L (stepOp s (Op.put now m')).2 = 1 := by simpa [stepOp, outcomes] using y
+      rw [this]; exact Cl.one G
   | resp now r =>
-    obtain ⟨_, r'⟩ := handleResponseA M w k s now r a hc
-    simpa [stepOp, outcomes] using r'
+    obtain ⟨_, r'⟩ := handleResponseA M w k s now r a hc hg
+    rcases r' with ⟨x, y, z⟩ | ⟨x, y, z⟩
+    · exact Or.inl ⟨x, by simpa [stepOp, outcomes] using y, z⟩
+    · exact Or.inr ⟨x, by simpa [stepOp, outcomes] using y, z⟩
   | deliver now dm =>
     obtain ⟨_, r⟩ := handleDeliverA M w k s now dm a hc
-    simpa [stepOp, outcomes] using r
+    rcases r with ⟨x, y, z⟩ | ⟨x, y, z⟩
+    · exact Or.inl ⟨x, by simpa [stepOp, outcomes] using y, fun _ => z⟩
+    · refine Or.inr ⟨x, ?_, z⟩
+      have : outcomes M.L (stepOp s (Op.deliver now dm)).2 = 1 := by simpa [stepOp, outcomes] using y
+      rw [this]; exact Cl.one G
 
 /-- after the message is closed nothing more is reported for it -/
 theorem runD (M : SegMsg) : ∀ (ops : List Op) (s : CState), D M s → (∀ op ∈ ops, CleanS M op) →
@@ -1682,63 +1835,100 @@ theorem weave_clean_of_done (M : SegMsg) : ∀ (j : Nat) (ops : List Op), Weave 
     · exact ih hj o h
   | seg j t ops hjn _ _ => intro hj; omega
 
+/-- none of the message's segments is in the request store -/
+def AllGone (M : SegMsg) (s : CState) : Prop := ∀ i, 1 ≤ i → i ≤ M.n → aget s.store (M.x i).seq = none
+
+/-- what a history reports for the message: at most one outcome, and exactly one if at its end no segment is
+    outstanding (given proper response types) -/
+def Ledger (G : Prop) (M : SegMsg) (r : CState × Nat) : Prop := r.2 ≤ 1 ∧ (G → AllGone M r.1 → r.2 = 1)
+
+theorem Ledger.shift {M : SegMsg} {r : CState × Nat} (h : Ledger G M r) (c : Nat) (hc : c = 0) :
+    Ledger G M (r.1, c + r.2) := by
+  subst hc
+  simpa [Ledger] using h
+
 /-- open phase: `k` segments stored, the rest of the history weaves in segments `k+1 …` -/
-theorem runA (M : SegMsg) (w : M.WF) : ∀ (ops : List Op) (k : Nat) (s : CState), 1 ≤ k → A M k s →
-    Weave M (k + 1) ops → (runOps M.L s ops).2 ≤ 1
-  | [], _, _, _, _, _ => by simp [runOps]
-  | op :: ops, k, s, hk, a, hw => by
+theorem runA (M : SegMsg) (w : M.WF) : ∀ (ops : List Op) (k : Nat) (s : CState), 1 ≤ k → A G M k s →
+    (G → Pend M k s) → Weave M (k + 1) ops → (G → ∀ op ∈ ops, GoodS M op) → Ledger G M (runOps M.L s ops)
+  | [], k, s, _, _, hp, hw, _ => by
+    refine ⟨by simp [runOps], ?_⟩
+    intro g hall
+    exfalso
+    have hnk : M.n ≤ k := by
+      cases hw with
+      | done _ _ hj _ => omega
+    obtain ⟨i, hi1, hi2, hi⟩ := hp g
+    rcases hi with hi | hi
+    · omega
+    · exact hi (hall i hi1 hi2)
+  | op :: ops, k, s, hk, a, hp, hw, hg => by
+    have hg' : G → ∀ o ∈ ops, GoodS M o := fun g o ho => hg g o (by simp [ho])
+    have hgo : G → GoodS M op := fun g => hg g op (by simp)
     cases hw with
     | done _ _ hj h =>
-      -- all segments stored
-      rcases stepA M w k s op a (h op (by simp)) with ⟨a1, c1⟩ | ⟨d1, c1, _⟩
-      · have := runA M w ops k _ hk a1 (Weave.done (k + 1) ops hj (fun o ho => h o (by simp [ho])))
-        simp only [runOps, c1]; omega
-      · have := runD M ops _ d1 (fun o ho => h o (by simp [ho]))
-        simp only [runOps, this]; omega
+      rcases stepA M w k s op a (h op (by simp)) hgo with ⟨a1, c1, p1⟩ | ⟨d1, c1, _⟩
+      · have := runA M w ops k _ hk a1 (fun g => p1 g (hp g)) (Weave.done (k + 1) ops hj (fun o ho => h o (by simp [ho]))) hg'
+        simpa only [runOps, c1, Nat.zero_add] using this
+      · have h0 := runD M ops _ d1 (fun o ho => h o (by simp [ho]))
+        refine ⟨?_, fun g _ => ?_⟩
+        · simp only [runOps, h0]; have := c1.1; omega
+        · simp only [runOps, h0]; have := c1.2 g; omega
     | other _ _ _ hc hrest =>
-      rcases stepA M w k s op a hc with ⟨a1, c1⟩ | ⟨d1, c1, hnk⟩
-      · have := runA M w ops k _ hk a1 hrest
-        simp only [runOps, c1]; omega
+      rcases stepA M w k s op a hc hgo with ⟨a1, c1, p1⟩ | ⟨d1, c1, hnk⟩
+      · have := runA M w ops k _ hk a1 (fun g => p1 g (hp g)) hrest hg'
+        simpa only [runOps, c1, Nat.zero_add] using this
       · have hcl := weave_clean_of_done M (k + 1) ops hrest (by omega)
-        have := runD M ops _ d1 hcl
-        simp only [runOps, this]; omega
+        have h0 := runD M ops _ d1 hcl
+        refine ⟨?_, fun g _ => ?_⟩
+        · simp only [runOps, h0]; have := c1.1; omega
+        · simp only [runOps, h0]; have := c1.2 g; omega
     | seg _ t _ hjn hrest =>
       obtain ⟨a1, c1, _⟩ := putNext M w k s t a hk (by omega)
-      have := runA M w ops (k + 1) _ (by omega) a1 hrest
+      have hp1 : Pend M (k + 1) (put s t (M.x (k + 1))).1 := pend_after_put M s t (k + 1) (by omega) hjn
+      have := runA M w ops (k + 1) _ (by omega) a1 (fun _ => hp1) hrest hg'
       have hc : outcomes M.L (stepOp s (Op.put t (M.x (k + 1)))).2 = 0 := by
         simpa [stepOp, outcomes] using c1
-      simp only [runOps, hc]
-      simpa [stepOp] using this
+      simp only [runOps]
+      exact Ledger.shift this _ hc
 
 /-- before the first segment is stored -/
-theorem runB (M : SegMsg) (w : M.WF) : ∀ (ops : List Op) (s : CState), D M s → aget s.segStatus M.r = none →
-    Weave M 1 ops → (runOps M.L s ops).2 ≤ 1
-  | [], _, _, _, _ => by simp [runOps]
-  | op :: ops, s, d, hn, hw => by
+theorem runB (G : Prop) (M : SegMsg) (w : M.WF) : ∀ (ops : List Op) (s : CState), D M s → aget s.segStatus M.r = none →
+    Weave M 1 ops → (G → ∀ op ∈ ops, GoodS M op) → Ledger G M (runOps M.L s ops)
+  | [], _, _, _, hw, _ => by
+    exfalso
+    have := w.npos
     cases hw with
-    | done _ _ _ h =>
-      have := runD M (op :: ops) s d h
+    | done _ _ hj _ => omega
+  | op :: ops, s, d, hn, hw, hg => by
+    have hg' : G → ∀ o ∈ ops, GoodS M o := fun g o ho => hg g o (by simp [ho])
+    cases hw with
+    | done _ _ hj h =>
+      exfalso
+      have := w.npos
       omega
     | other _ _ _ hc hrest =>
       obtain ⟨d1, s1, c1⟩ := stepD M s op d hc
-      have := runB M w ops _ d1 (by rw [s1.stat]; exact hn) hrest
-      simp only [runOps, c1]; omega
+      have := runB G M w ops _ d1 (by rw [s1.stat]; exact hn) hrest hg'
+      simpa only [runOps, c1, Nat.zero_add] using this
     | seg _ t _ hjn hrest =>
-      obtain ⟨a1, c1, _⟩ := putFirst M w s t d hn
-      have := runA M w ops 1 _ (Nat.le_refl 1) a1 hrest
+      obtain ⟨a1, c1, _⟩ := putFirst (G := G) M w s t d hn
+      have hp1 : Pend M 1 (put s t (M.x 1)).1 := pend_after_put M s t 1 (Nat.le_refl 1) hjn
+      have := runA M w ops 1 _ (Nat.le_refl 1) a1 (fun _ => hp1) hrest hg'
       have hc : outcomes M.L (stepOp s (Op.put t (M.x 1))).2 = 0 := by
         simpa [stepOp, outcomes] using c1
-      simp only [runOps, hc]
-      simpa [stepOp] using this
+      simp only [runOps]
+      exact Ledger.shift this _ hc
 
 theorem init_D (M : SegMsg) (ttlR ttlD : Nat) : D M (initState ttlR ttlD) ∧ aget (initState ttlR ttlD).segStatus M.r = none :=
   ⟨⟨⟨fun k v _ hv => by simp [initState, aget] at hv, fun k p _ hp => by simp [initState, aget] at hp,
      fun r' st _ hst => by simp [initState, aget] at hst⟩,
     fun i p _ _ hp => by simp [initState, aget] at hp, fun _ _ => rfl⟩, rfl⟩
 
-/-- HISTORY-LEVEL LEDGER for a segmented message: at most one outcome. -/
+/-- HISTORY-LEVEL LEDGER for a segmented message. -/
 theorem seg_ledger (M : SegMsg) (w : M.WF) (ttlR ttlD : Nat) (ops : List Op) (hw : Weave M 1 ops) :
-    (runOps M.L (initState ttlR ttlD) ops).2 ≤ 1 :=
-  runB M w ops _ (init_D M ttlR ttlD).1 (init_D M ttlR ttlD).2 hw
+    (runOps M.L (initState ttlR ttlD) ops).2 ≤ 1 ∧
+    ((∀ op ∈ ops, GoodS M op) → AllGone M (runOps M.L (initState ttlR ttlD) ops).1 →
+      (runOps M.L (initState ttlR ttlD) ops).2 = 1) :=
+  runB (∀ op ∈ ops, GoodS M op) M w ops _ (init_D M ttlR ttlD).1 (init_D M ttlR ttlD).2 hw (fun g => g)
 
 end SmppVerif.Lemmas.SegHistory
